@@ -35,6 +35,21 @@ class _Complement(ast.NodeTransformer):
                 return r
         return node
 
+    # ---- string formatting: "%d" % x, "{}".format(x), f"{x}" have one form (JoinedStr)
+    def visit_BinOp(self, node):
+        self.generic_visit(node)
+        if isinstance(node.op, ast.Mod) and isinstance(node.left, ast.Constant) and isinstance(node.left.value, str):
+            r = _percent_to_joined(node.left.value, node.right)
+            if r is not None:
+                return _merge_joined(r)
+        if isinstance(node.op, ast.Add) and isinstance(node.left, ast.Constant) and isinstance(node.right, ast.Constant) and isinstance(node.left.value, str) and isinstance(node.right.value, str):
+            return ast.Constant(node.left.value + node.right.value)
+        return node
+
+    def visit_JoinedStr(self, node):
+        self.generic_visit(node)
+        return _merge_joined(node)
+
     def visit_IfExp(self, node):
         # `a if not c else b`  ->  `b if c else a`
         self.generic_visit(node)
@@ -44,11 +59,97 @@ class _Complement(ast.NodeTransformer):
 
     def visit_Call(self, node):
         self.generic_visit(node)
+        if isinstance(node.func, ast.Attribute) and node.func.attr == "format" and isinstance(node.func.value, ast.Constant) and isinstance(node.func.value.value, str):
+            r = _format_to_joined(node.func.value.value, node.args, node.keywords)
+            if r is not None:
+                return _merge_joined(r)
         if isinstance(node.func, ast.Attribute) and node.func.attr == "logical_not" and len(node.args) == 1 and not node.keywords:
             r = self._neg(node.args[0])
             if r is not None:
                 return r
         return node
+
+
+def _fv(value, conv=-1, spec=None):
+    return ast.FormattedValue(value=value, conversion=conv, format_spec=ast.JoinedStr(values=[ast.Constant(spec)]) if spec else None)
+
+
+def _percent_to_joined(fmt: str, right: ast.AST):
+    import re
+
+    args = list(right.elts) if isinstance(right, ast.Tuple) else [right]
+    parts = []
+    pos = 0
+    k = 0
+    for m in re.finditer(r"%(?:\((\w+)\))?([#0\- +]*)(\d+|\*)?(?:\.(\d+))?([diouxXeEfFgGcrsa%])", fmt):
+        if m.start() > pos:
+            parts.append(ast.Constant(fmt[pos : m.start()]))
+        pos = m.end()
+        conv = m.group(5)
+        if conv == "%":
+            parts.append(ast.Constant("%"))
+            continue
+        if m.group(1) is not None or m.group(3) == "*" or k >= len(args):
+            return None
+        a = args[k]
+        k += 1
+        spec = (m.group(2) or "") + (m.group(3) or "") + ("." + m.group(4) if m.group(4) else "")
+        if conv in ("d", "i", "s") and not spec:
+            parts.append(_fv(a))
+        elif conv == "r" and not spec:
+            parts.append(_fv(a, ord("r")))
+        else:
+            parts.append(_fv(a, -1, spec + conv))
+    if k != len(args):
+        return None
+    if pos < len(fmt):
+        parts.append(ast.Constant(fmt[pos:]))
+    return ast.JoinedStr(values=parts)
+
+
+def _format_to_joined(fmt: str, args, keywords):
+    import string
+
+    parts = []
+    auto = 0
+    kw = {k.arg: k.value for k in keywords if k.arg}
+    try:
+        for lit, field, spec, conv in string.Formatter().parse(fmt):
+            if lit:
+                parts.append(ast.Constant(lit))
+            if field is None:
+                continue
+            if field == "":
+                idx = auto
+                auto += 1
+                a = args[idx] if idx < len(args) else None
+            elif field.isdigit():
+                a = args[int(field)] if int(field) < len(args) else None
+            elif field.isidentifier():
+                a = kw.get(field)
+            else:
+                return None
+            if a is None or isinstance(a, ast.Starred):
+                return None
+            parts.append(_fv(a, ord(conv) if conv else -1, spec or None))
+    except (ValueError, IndexError):
+        return None
+    return ast.JoinedStr(values=parts)
+
+
+def _merge_joined(js: ast.JoinedStr):
+    """constant pieces merged; a constant interpolated without format becomes text"""
+    out = []
+    for v in js.values:
+        if isinstance(v, ast.FormattedValue) and isinstance(v.value, ast.Constant) and v.format_spec is None and v.conversion == -1 and isinstance(v.value.value, (str, int)) and not isinstance(v.value.value, bool):
+            v = ast.Constant(str(v.value.value))
+        if isinstance(v, ast.Constant) and out and isinstance(out[-1], ast.Constant):
+            out[-1] = ast.Constant(str(out[-1].value) + str(v.value))
+        else:
+            out.append(v)
+    if all(isinstance(v, ast.Constant) for v in out):
+        return ast.Constant("".join(str(v.value) for v in out))
+    return ast.JoinedStr(values=out)
 
 
 def complement_norm(tree: ast.AST) -> ast.AST:
@@ -610,3 +711,32 @@ def inline_helpers(repo, fi: FunctionInfo, x: ast.AST, depth: int = 0) -> ast.AS
             return n
 
     return R().visit(clone_ast(x))
+
+
+def paths_deep(repo, fi: FunctionInfo, bindings: Optional[Dict[str, object]] = None, depth: int = 0) -> List[Path]:
+    """paths of `fi`; a path that only returns the call of another repository
+    function (a wrapper delegating to a shared helper) is replaced by that
+    function's paths, parameters bound to the arguments"""
+    out = []
+    for p in paths(fi, bindings):
+        r = p.ret
+        if depth < 3 and isinstance(r, ast.Call) and not p.stores:
+            probe = ast.Call(func=r.func, args=r.args, keywords=r.keywords)
+            f = r.func
+            if isinstance(f, ast.Name) and f.id.endswith("__def"):
+                probe = ast.Call(func=ast.Name(id=f.id[:-5], ctx=ast.Load()), args=r.args, keywords=r.keywords)
+            callee = resolve_call(repo, fi, probe)
+            if callee is not None and callee.name != "__init__" and not any(isinstance(a, ast.Starred) for a in r.args):
+                b = bind(r, callee.named_params)
+                try:
+                    sub = paths_deep(repo, callee, b, depth + 1)
+                except AnalysisError:
+                    sub = None
+                if sub:
+                    for q in sub:
+                        q.conds = p.conds + q.conds
+                        q.calls = p.calls + q.calls
+                        out.append(q)
+                    continue
+        out.append(p)
+    return out
